@@ -164,3 +164,11 @@ Proof.
   - split; [reflexivity|]. intros H. destruct (H 0 1 eq_refl) as [K _]. apply K.
     apply reach_init. simpl. left; reflexivity.
 Qed.
+
+(* boundary: on the empty graph (and on graphs of isolated nodes) all five conditions of valid_mag_local hold vacuously,
+   so the theorems fix the answers: valid_mag = True, is_maximal = True, has_adc = False *)
+Example valid_mag_empty :
+  let e := MkG [] [] [] [] [] in
+  wf e /\ valid_mag_model e = true /\ is_maximal_model e = true /\ has_adc_model e = false /\
+  valid_mag_model (MkG [0; 1; 2] [] [] [] []) = true.
+Proof. vm_compute. repeat split; reflexivity. Qed.
